@@ -45,7 +45,21 @@ func histOrAudit(h *Harness, cfg histCfg, prefix string) {
 const histRule = "one run = a tape-drawn history (6-20 events: handshake / tick / origin change / restart / advance) over 1-2 validators and 2-3 CRL locations (two issuers with overlapping serials; sources CDP, crl_urls, crl_files; DER/PEM; serial widths 1-20 bytes; chunked delivery) with configuration (backend, mode, signature mode, fetch mode, strictness) drawn per run; every handshake verdict is checked against the versions observed in force by pure probes before and after it; non-trivial = some handshake was denied or concerned a listed serial, or an origin misbehaved; distinct = distinct (scenario, schedule) fingerprints"
 
 func init() {
-	register(&PropDef{ID: "C01", Plan: func(t string) Plan { return histPlanAudit(t, histRule) }, Run: func(h *Harness) {
+	register(&PropDef{ID: "C01", Plan: func(t string) Plan {
+		p := histPlanAudit(t, histRule+"; after the audits, 16 (thorough: 120) concurrent-listing runs: 3-6 handshakes for serials every version of the list contains, at once, against a refresh cycle that replaces the list, under seeded preemption, window delays and lock holds")
+		p.Runs += concurrentListedAuditRuns(t)
+		p.Enumerated += concurrentListedAuditRuns(t)
+		return p
+	}, Run: func(h *Harness) {
+		na := auditRuns(h.Tier) + siblingAuditRuns(h.Tier) + crossIssuerAuditRuns(h.Tier)
+		if h.Idx >= na && h.Idx < na+concurrentListedAuditRuns(h.Tier) {
+			ownPrefix = "C01."
+			runConcurrentListedAudit(h, h.Idx-na)
+			return
+		}
+		if h.Idx >= na+concurrentListedAuditRuns(h.Tier) {
+			h.Idx -= concurrentListedAuditRuns(h.Tier) // the explorer's runs keep their numbering
+		}
 		histOrAudit(h, histCfg{prop: "C01", strictBias: 30, withOCSP: true, faulty: true, histLen: 6}, "C01.")
 	}})
 	register(&PropDef{ID: "C10", Plan: func(t string) Plan {
